@@ -125,7 +125,7 @@ CHECKS = {
              "names/scales/strings) with their dedicated getters, name/index/ref lookups, other objects created in "
              "between, reopen read-only and read-write. Oracle: ordered attribute-map model (replace keeps the index; a "
              "refused re-set leaves the old value). 8 000 / 150 000 histories.",
-        note="Trusts the map model; dimensions keep distinct names; three known findings kept out by guards.",
+        note="Trusts the map model; dimensions keep distinct names (renamed with scale and attributes attached, scales re-set with other number types); one known finding (a GR attribute re-set with fewer values) kept out by a guard, two former ones repaired (f88bdd6, 7b65487).",
         tech=TECH % ("", "oracle = ordered attribute-map reference model"),
     ),
     "C11": dict(
